@@ -10,7 +10,12 @@ package sim
 //            exported Go values (struct level, no JSON -- see the note on F7 at bootGenesis), whose bank balances are the
 //            current balances of every account in the tracked denominations (module accounts
 //            included: the escrow account `deposit` keeps backing the deposit records), and whose SDK
-//            mint parameters/minter are the current ones.  Height and time continue.
+//            mint parameters/minter are the current ones.  Height and time continue.  As on a real chain (and as
+//            after `start`) the imported genesis is NOT committed by itself: the next `begin` runs the first
+//            block of the new application instance on the uncommitted genesis state, at InitialHeight = old
+//            height + 1, and the genesis is committed together with that block.  InitGenesis writes every
+//            parameter with SetParams, which marks the four node price-bound keys as modified in the params
+//            transient store, so the first EndBlock after a re-import runs the node price sweep.
 //
 // What is NOT carried over (outside the compared projection): balances in untracked denominations
 // (the staking bond denomination: validator bond, SDK block provisions), distribution bookkeeping
@@ -240,7 +245,10 @@ func (r *Runner) Reimport(o *Op) (string, error) {
 //   - the SDK mint section (minter, parameters) is given,
 //   - the distribution community pool equals the carried balance of the distribution account
 //     (x/distribution refuses a genesis in which they differ),
-//   - the chain starts at the given height/time (InitialHeight), so the next `begin` continues.
+//   - the chain's first block is height+1 (InitialHeight) at or after the given time, so the next `begin`
+//     continues the numbering; `height` is the height of the last block of the exporting instance.
+//
+// Like NewWithVPN it does NOT commit: the instance is left with its genesis in the deliver state (Sim.Pending).
 func bootGenesis(c *Config, ex *Exported, bals []Balance, sdkMint *minttypes.GenesisState, denoms []string, height int64, now time.Time) (*Sim, error) {
 	tmp, err := os.MkdirTemp("", "hubsim")
 	if err != nil {
@@ -345,6 +353,14 @@ func bootGenesis(c *Config, ex *Exported, bals []Balance, sdkMint *minttypes.Gen
 	s.Denoms = append([]string{}, denoms...)
 	sort.Strings(s.Denoms)
 	s.Time = now
+	// Begin increments Height before it builds the header: the first block of this instance is `first`
+	if height < 0 {
+		height = 0
+	}
+	first := height + 1
+	s.Height = height
+	s.Pending = true
+	s.hdr = tmproto.Header{ChainID: ChainID, Height: first, Time: now}
 	var initErr error
 	func() {
 		defer func() {
@@ -355,28 +371,25 @@ func bootGenesis(c *Config, ex *Exported, bals []Balance, sdkMint *minttypes.Gen
 		a.InitChain(abci.RequestInitChain{
 			ChainId:         ChainID,
 			Time:            now,
-			InitialHeight:   height,
+			InitialHeight:   first,
 			Validators:      []abci.ValidatorUpdate{},
 			ConsensusParams: simtestutil.DefaultConsensusParams,
 			AppStateBytes:   stateBytes,
 		})
-		ctx := a.NewContext(false, tmproto.Header{ChainID: ChainID, Height: height, Time: now})
+		ctx := a.NewContext(false, s.hdr)
 		vpn.InitGenesis(ctx, a.VPNKeeper, ex.VPN)
 		swap.InitGenesis(ctx, a.SwapKeeper, ex.Swap)
 		custommint.InitGenesis(ctx, a.CustomMintKeeper, ex.Mint)
-		a.Commit()
+		// no Commit here (see NewWithVPN): genesis and first block share one commit, the params transient
+		// store still holds the "modified" marks of every SetParams when the first EndBlock runs
 	}()
 	if initErr != nil {
 		s.Close()
 		return nil, initErr
 	}
-	s.Height = height
-	if s.Height < 1 {
-		s.Height = 1
-	}
-	if got := a.LastBlockHeight(); got != s.Height {
+	if got := a.LastBlockHeight(); got != 0 {
 		s.Close()
-		return nil, fmt.Errorf("re-imported chain is at height %d, expected %d", got, s.Height)
+		return nil, fmt.Errorf("re-imported chain has committed height %d before its first block", got)
 	}
 	return s, nil
 }
